@@ -28,6 +28,13 @@ from an index":
       clause, a call of a function for which the same holds, a branch on which the clause was found absent, a branch on
       which the statement has a set operation (the cut is the combined result's), or returns an empty vector / declines
       with Ok(None).  A fast path that answers COUNT(*) from the row count, or SELECT without FROM, must still cut;
+ (R7) NULLS LAST does not depend on the direction: in every comparator of a query's ORDER BY (plain, aggregated, set
+      operation) an Ordering::reverse applied to compare_sql_values (which ranks NULL highest) is reached only where both
+      operands were tested to be non-NULL; otherwise DESC would return the NULL rows first on that path only;
+ (R8) every ORDER BY key builder knows the three forms of an item: each function of the select executor that walks the
+      ORDER BY list and reads item.direction also decides, itself or in a helper that receives item.expr, whether the
+      item is an integer literal (a select-list position); a builder that evaluates `1` as the constant 1 leaves its
+      path unsorted under ORDER BY 1;
  (R2) the reference the rule relies on: compare_sql_values orders (NULL, x) as Greater and (x, NULL) as Less.
 Does NOT decide that the index order equals the sort order for non-NULL keys (C02 decides the key pipeline), LIMIT /
 OFFSET arithmetic, or DISTINCT."""
@@ -37,7 +44,7 @@ from ..engine.cfg import cfg, op_place
 from ..engine.symexpr import Sym
 from . import shared
 
-UNITS = {'vibesql_executor', 'vibesql_types'}
+UNITS = {'vibesql_executor', 'vibesql_types', 'vibesql_ast'}
 EX = 'vibesql_executor::'
 SV = 'vibesql_types::sql_value::SqlValue'
 
@@ -120,6 +127,8 @@ def run(ctx):
     _lexicographic_rule(ctx, prog)
     _cut_rule(ctx, prog)
     _complete_rule(ctx, prog)
+    _null_direction_rule(ctx, prog)
+    _position_rule(ctx, prog)
 
 
 def _setop_rule(ctx, prog):
@@ -316,3 +325,79 @@ def _complete_rule(ctx, prog):
         return (f'{f.nice} has a path to a successful return that never cuts the rows by the statement\'s {cl.upper()} (through lines {lines}): the result ignores '
                 f'{cl.upper()} (SELECT COUNT(*) FROM t LIMIT 0 and SELECT 1 OFFSET 1 return a row)')
     shared.result_path_rule(ctx, prog, 'C08.R6', {'limit': clause('limit'), 'offset': clause('offset')}, describe)
+
+
+QUERY_COMPARATORS = re.compile(r'(select::order::apply_order_by|apply_order_by_to_aggregates|order_set_operation_result)::\{closure#\d+\}$')
+
+
+def _null_direction_rule(ctx, prog):
+    ctx.rule('C08.R7', 'comparators of a query\'s ORDER BY: Ordering::reverse of a compare_sql_values result is reached only under is_null(a) == false and is_null(b) == false')
+    n = 0
+    for f in prog.fns.values():
+        if f.unit != 'vibesql_executor' or shared.is_test(f) or not QUERY_COMPARATORS.search(f.nice) or not f.locals or not f.locals[0].endswith('cmp::Ordering'):
+            continue
+        s = Sym(f)
+        revs = [(i, t) for i, t in f.calls() if (callee_name(t) or '').endswith('cmp::Ordering::reverse')]
+        if not revs:
+            continue
+        n += 1
+        bad = []
+        for i, t in revs:
+            arg = s.op(t['args'][0])
+            if 'compare_sql_values(' not in arg:
+                continue
+            nonnull = [c for c, v in shared.deciding_conditions(f, i, s) if c.startswith('is_null(') and v == '0']
+            # tuple-matched form: (a.is_null(), b.is_null()) => (false, false): conditions are the tuple fields, traced to is_null calls by Sym
+            if len(nonnull) < 2:
+                bad.append(t['l'])
+        key = 'R7/' + re.sub(r"<impl [^>]*>::", '', f.nice).split('vibesql_executor::', 1)[-1]
+        ctx.instance(key, {'rule': 'C08.R7', 'fn': f.nice, 'loc': f.loc, 'reverse_calls': len(revs), 'reverse_only_for_non_null_operands': not bad})
+        if bad:
+            ctx.finding(key, f'{f.nice} reverses compare_sql_values for DESC without first separating NULL operands: compare_sql_values ranks NULL highest, so ORDER BY k DESC '
+                        'returns the NULL rows first on this path while the other ORDER BY paths return them last', f'{f.file}:{bad[0]}')
+    ctx.floor('C08.R7 query comparators that reverse for DESC', n, 3)
+
+
+def _position_rule(ctx, prog):
+    from ..engine.tables import enum_switches
+    ctx.rule('C08.R8', 'select-executor functions that read OrderByItem.direction while walking the ORDER BY list: the function, or a callee that receives the item\'s expr, '
+             'switches on the Expression discriminant with an arm for Literal')
+    EXPR = 'vibesql_ast::expression::Expression'
+
+    def tests_literal(f):
+        try:
+            return any('Literal' in sw['arms'] for sw in enum_switches(prog, f, EXPR))
+        except KeyError:
+            return False
+    n = 0
+    for f in prog.fns.values():
+        if f.unit != 'vibesql_executor' or shared.is_test(f) or '::select::' not in f.nice or f.is_closure():
+            continue
+        reads_dir = False
+        for b in f.blocks:
+            for st in b['s']:
+                if 'd' in st and st['v']['r'] in ('ref', 'use') and 'p' in st['v'] and any(e == '.direction' for e in st['v']['p'][1] if isinstance(e, str)):
+                    reads_dir = True
+                if 'd' in st and 'a' in st['v'] and isinstance(st['v']['a'], dict) and any(e == '.direction' for e in (st['v']['a'].get('p') or [0, []])[1] if isinstance(e, str)):
+                    reads_dir = True
+        if not reads_dir:
+            continue
+        s = Sym(f)
+        # builds sort keys: pushes (value, direction) pairs or (index, direction) pairs
+        if not any(re.search(r'Vec<.*>::push$|Vec::<.*>::push$', callee_name(t) or '') and '.direction' in s.op(t['args'][1]) for _i, t in f.calls() if len(t['args']) > 1):
+            continue
+        n += 1
+        ok = tests_literal(f)
+        via = None
+        if not ok:
+            for i, t in f.calls():
+                if any(re.search(r'\.expr\b', s.op(a)) for a in t['args']):
+                    for h in prog.by_nice.get(callee_name(t) or '', []):
+                        if h.unit == 'vibesql_executor' and tests_literal(h):
+                            ok, via = True, h.nice.rsplit('::', 1)[1]
+        key = 'R8/' + re.sub(r"<impl [^>]*>::", '', f.nice).rsplit('::', 1)[-1]
+        ctx.instance(key, {'rule': 'C08.R8', 'fn': f.nice, 'loc': f.loc, 'position_form_decided': ok, 'via': via})
+        if not ok:
+            ctx.finding(key, f'{f.nice} builds ORDER BY sort keys without deciding whether an item is an integer literal (a position in the select list): ORDER BY 1 is '
+                        'evaluated as the constant 1 and the rows of this path come back unsorted', f.loc)
+    ctx.floor('C08.R8 ORDER BY key builders', n, 3)
